@@ -65,7 +65,35 @@ theorem parseKids_append (e : BEnv) (Γ : Ctx) (cfg : ParserConfig) (m : XmlMeta
               simp [seqKids, h3, pure, Except.pure, List.append_assoc, Nat.add_assoc]
 
 
+/-! ### single branches of `parseNode` (unfoldings) -/
+
+/-- a `SkipNode` swallows any subtree: no object, no warning, whatever the flags -/
+theorem parseNode_skip (e : BEnv) (Γ : Ctx) (cfg : ParserConfig) (t : Tree) :
+    parseNode e Γ cfg .skip t = .ok ⟨[], 0⟩ := by
+  cases t; simp [parseNode]
+
+/-- a child element under a `PrimitiveNode` raises `XmlContextError`, whatever the flags -/
+theorem parseNode_primitive_child (e : BEnv) (Γ : Ctx) (cfg : ParserConfig) (pm : XmlMeta) (var : XmlVar)
+    (ns : NsMap) (nil : Bool) (q : QN) (a : List (QN × Str)) (n : NsMap) (t tl : Option Str) (u : Tree) (us : List Tree) :
+    parseNode e Γ cfg (.primitive pm var ns nil) (.node q a n t (u :: us) tl)
+      = .error (.context "Primitive node doesn't support child nodes!") := by
+  simp [parseNode]
+
+/-- the same under a `StandardNode` (an `xsi:type` naming a builtin datatype) -/
+theorem parseNode_standard_child (e : BEnv) (Γ : Ctx) (cfg : ParserConfig) (var : XmlVar) (dt : PT)
+    (ns : NsMap) (nillable derived mixed : Bool) (q : QN) (a : List (QN × Str)) (n : NsMap) (t tl : Option Str)
+    (u : Tree) (us : List Tree) :
+    parseNode e Γ cfg (.standard var dt ns nillable derived mixed) (.node q a n t (u :: us) tl)
+      = .error (.context "StandardNode node doesn't support child nodes!") := by
+  simp [parseNode]
+
 /-! ### vocabulary of the statements -/
+
+/-- the node `ElementNode.child` created is a `PrimitiveNode` or a `StandardNode` -/
+def isSimpleNode : Node → Bool
+  | .primitive .. | .standard .. => true
+  | _ => false
+
 
 /-- `q` is an unknown property of the class described by `m`: no element, choice or
 wildcard var takes a child named `q`, and `q` is not the name of a wrapper element -/
@@ -316,6 +344,22 @@ def ctxW : Ctx :=
   { classes := [{ id := ['W'], metas := [(none, metaW)], mro := [['W']], bases := [],
                   fields := [⟨['w'], true, some .none⟩] }],
     xsiIndex := [(['W'], [['W']])], datatypes := [] }
+
+/-- `V(items: list[str])`, items `<it>` under the wrapper element `<ws>` -/
+def varIt : XmlVar :=
+  mkVar { baseVar with
+    name := ['v'], localName := ['i','t'], qname := ['i','t'], wrapperQName := some ['w','s'], listElement := true,
+    default := .listFactory }
+
+def metaV : XmlMeta :=
+  { clazz := ['V'], qname := ['V'], targetQName := some ['V'], nillable := false, text := none, choices := [],
+    elements := [(['i','t'], [varIt])], wildcards := [], attributes := [], anyAttributes := [],
+    wrappers := [(['w','s'], ['i','t'])] }
+
+def ctxV : Ctx :=
+  { classes := [{ id := ['V'], metas := [(none, metaV)], mro := [['V']], bases := [],
+                  fields := [⟨['v'], true, some (.list [])⟩] }],
+    xsiIndex := [(['V'], [['V']])], datatypes := [] }
 
 end Ex
 
